@@ -2,7 +2,8 @@
 #
 # Request (see harness/cmd/c12/main.go, lean/Driver/C12.lean):
 #   retry mr= init= max= mul=p/q rf=a/b el= hook= outs=<f|s><k>,… cancel=<j|-> sleep=<j>:<ns>|-   (inputs)
-#         n= d= ts= te= tr=                                                                        (recorded from the run)
+#         conc=<M>:<idx>:<stagger>|-                                                              (input: M messages through one instance)
+#         n= d= ts= te= tr= tq=                                                                    (recorded from the run)
 # Observation: n=<calls> hooks=<num>:<delay>,… res=<msgs>/<err> time=ok
 
 
@@ -47,11 +48,11 @@ PROP = {
             "every j (MaxRetries 1,2,3,4,6,8 quick / 1..8 thorough) with the racing wait >= 10 ms; schedule: 260 (quick) / 2600 (thorough) seeded "
             "configurations, InitialInterval 0..3 ms, MaxInterval up to 5 ms, Multiplier {1, 3/2, 2, 3}, RandomizationFactor {0, 1/2, 1}, "
             "fail^i then succeed or fail forever, 0..2 output messages per call (also from failing calls); elapsed: MaxElapsedTime 30 ms with "
-            "a call sleeping 150 ms at call 0..4, MaxElapsedTime 2..12 ms against waits of 1..6 ms, and 10 s (no effect); odd: "
+            "a call sleeping 150 ms at call 0..4, MaxElapsedTime 2..12 ms against waits of 1..6 ms, and 10 s (no effect); elapsed.wait: the wait before call k exceeds what is left of MaxElapsedTime by >= 40 ms (300 ms vs 60 ms, 20/40/80 ms vs 100 ms, ...): the call count is predicted by counting; concurrent: 2..4 messages staggered through ONE middleware instance and ONE wrapped handler, each message reported as its own case and held to its own schedule; odd: "
             "InitialInterval > MaxInterval, Multiplier 1/2, MaxInterval 0, MaxRetries <= 0, nanosecond intervals with truncation. Compared "
             "exactly: number of calls, hook numbers, reported delays (each must be reproducible by a draw in [0,1) from the model's interval), "
             "returned messages and error identity. By inequality only: gap between calls >= wait, no call begun after MaxElapsedTime, early "
-            "give-up only when the context can have ended. Non-trivial = at least one retry was made; distinct = distinct (request, observation).",
+            "give-up only when the context can have ended, no call after a wait whose end lies > 25 ms past the budget's latest possible deadline. Non-trivial = at least one retry was made; distinct = distinct (request, observation).",
     "trusted_base": [
         "Lean 4.33.0 kernel; axioms per theorem listed under theorem_axioms (subset of propext, Classical.choice, Quot.sound)",
         "hand-written model WmModel/Retry.lean of retry.go and of cenkalti/backoff v3.2.2 exponential.go (NextBackOff, incrementCurrentInterval, "
@@ -65,6 +66,8 @@ PROP = {
     "assumptions": [
         "which alternative a select with both channels ready takes is not determined by Go; the harness makes the racing wait >= 10 ms in "
         "cancellation cases and re-runs a case up to 2 more times before reporting a call made after the cancelling one",
+        "a context deadline that precedes the timer's due time by more than 25 ms wakes the select first (Go runtime: the parked select is "
+        "resumed by the first event); the harness re-runs a scenario up to 2 more times before such a call is reported",
         "real time is sampled: waits are checked as lower bounds only (gap >= reported delay >= model lower bound), never as upper bounds",
         "OnRetryHook unset: delays are not observable, the model then assumes the smallest wait of each interval",
         "negative durations and RandomizationFactor > 1 are outside the model (rejected as bad-op, not generated)",
